@@ -42,6 +42,8 @@ fn main() {
             1
         }
     };
+    #[cfg(rustfmt_verif)]
+    rustfmt::verif::ev_exit(exit_code);
     // Make sure standard output is flushed before we exit.
     std::io::stdout().flush().unwrap();
 
@@ -344,14 +346,20 @@ fn format(
 
     let out = &mut stdout();
     let mut session = Session::new(config, Some(out));
+    #[cfg(rustfmt_verif)]
+    rustfmt::verif::ev_invocation(options.check, &files);
 
     for file in files {
         if !file.exists() {
             eprintln!("Error: file `{}` does not exist", file.display());
             session.add_operational_error();
+            #[cfg(rustfmt_verif)]
+            rustfmt::verif::ev_bad_path(&file);
         } else if file.is_dir() {
             eprintln!("Error: `{}` is a directory", file.display());
             session.add_operational_error();
+            #[cfg(rustfmt_verif)]
+            rustfmt::verif::ev_bad_path(&file);
         } else {
             // Check the file directory if the config-path could not be read or not provided
             if config_path.is_none() {
@@ -412,6 +420,8 @@ fn format_and_emit_report<T: Write>(session: &mut Session<'_, T>, input: Input) 
             session.add_operational_error();
         }
     }
+    #[cfg(rustfmt_verif)]
+    rustfmt::verif::ev_reported(session);
 }
 
 fn should_print_with_colors<T: Write>(session: &mut Session<'_, T>) -> bool {
